@@ -37,6 +37,24 @@ Proof.
   destruct require; [rewrite (H2 eq_refl)|]; destruct k, sc, cc, must; cbn in *; try discriminate; try reflexivity; exfalso; apply H3; reflexivity.
 Qed.
 
+(* A UDP endpoint protected by a shared secret admits only clients holding the same secret and lets those in; an endpoint
+   without a secret refuses a client that encrypts. *)
+Lemma bytes_eqb_true_eq : forall a b, bytes_eqb a b = true -> a = b.
+Proof.
+  induction a as [|x a IH]; destruct b as [|y b]; cbn; intros H; try discriminate; [reflexivity|].
+  apply andb_true_iff in H. destruct H as [H1 H2]. apply N.eqb_eq in H1. rewrite H1, (IH b H2). reflexivity.
+Qed.
+Lemma bytes_eqb_same : forall a, bytes_eqb a a = true.
+Proof. induction a as [|x a IH]; cbn; [reflexivity|]. rewrite N.eqb_refl, IH. reflexivity. Qed.
+Theorem c05_shared_secret : forall s c, secret_admits (Some s) c = true <-> c = Some s.
+Proof.
+  intros s c; split.
+  - destruct c as [b|]; cbn; intros H; [|discriminate]. rewrite (bytes_eqb_true_eq s b H). reflexivity.
+  - intros ->. cbn. apply bytes_eqb_same.
+Qed.
+Theorem c05_no_secret_no_cipher : forall c, secret_admits None c = true <-> c = None.
+Proof. intros [b|]; cbn; split; intros H; try discriminate; reflexivity. Qed.
+
 Example c05_nonvacuous : connect StartTlsSocket SGood false CNone false true = Session true
   /\ connect TlsSocket SWrongHost false CNone false false = ConnectErr.
 Proof. split; reflexivity. Qed.
